@@ -40,8 +40,23 @@ def compare(chk, label, case, ri, rm, relevant=True):
     if a[0] != m[0]:
         return {"case": case, "impl": a, "model": m}
     if a[0] == "ok" and relevant and vlib.canon(a[1]) != vlib.canon(m[1]):
-        return {"case": case, "impl": a, "model": m}
+        # names are bytes in the model and String::from_utf8_lossy in the implementation: a parser that cuts inside a
+        # multi-byte character (a malformed record) leaves fragments that decode to U+FFFD - compared after the same decoding
+        if vlib.canon(a[1]) != vlib.canon(lossy_names(m[1])):
+            return {"case": case, "impl": a, "model": m}
     return None
+
+
+def lossy(hexname):
+    return bytes.fromhex(hexname).decode("utf-8", "replace").encode("utf-8").hex()
+
+
+def lossy_names(results):
+    out = []
+    for n, c in results:
+        c = dict(c, funcs=sorted([[lossy(f[0])] + list(f[1:]) for f in c["funcs"]], key=lambda x: bytes.fromhex(x[0])))
+        out.append([lossy(n), c])
+    return out
 
 
 def run_wellformed(chk, files):
